@@ -112,7 +112,10 @@ def _case(draw):
                     vals.append(draw(st.sampled_from([w, a, w + "123"])))
                 else:
                     vals.append(draw(S.secret_for(form))[1])
-            lines.append(S.render(form, draw(st.integers(0, 20)), draw(st.integers(0, 5)), vals, draw(st.sampled_from(S.ENCLOSINGS[:6])), draw(st.sampled_from(["", " "])), "")[0])
+            sl = S.render(form, draw(st.integers(0, 20)), draw(st.integers(0, 5)), vals, draw(st.sampled_from(S.ENCLOSINGS[:6])), draw(st.sampled_from(["", " "])), "")[0]
+            if draw(st.integers(0, 3)) == 0:
+                sl = draw(st.sampled_from([w + "-gw#", "AS" + a, w.upper() + ">", "10.1.2.3:"])) + " " + sl.lstrip()
+            lines.append(sl)
         elif k == 1:
             lines.append(draw(G.token_line(cfg=cfg, allow_v4tail=True))["line"])
         elif k == 2:
